@@ -84,7 +84,7 @@ mutual
 end
 
 /-- the decoder's counter guard (generators.py container_len._decode, `array_guard = 65536`): the
-    raw counter (element count plus shift) of every bound array is at most 65536.  Values beyond it
+    element count of every bound array is at most 65536 (the shift is subtracted before the guard is applied).  Values beyond it
     encode but are refused by decode (known finding D49). -/
 def guardLimit : Nat := 65536
 
@@ -101,7 +101,7 @@ mutual
   def guardFields (all : List Member) : List Member → List Val → Bool
     | .mk _ t k :: r, v :: vs =>
       (match k.sizer? with
-       | some s => decide (v.len + sizerShift s all ≤ guardLimit)
+       | some _ => decide (v.len ≤ guardLimit)
        | none => true) && guardTy t v && guardFields all r vs
     | _, _ => true
   def guardElems : Ty → List Val → Bool
